@@ -59,6 +59,10 @@ where
     ) -> Result<(), GrevmError<DB::Error>> {
         let txid = self.scheduler_ctx.committed_idx().min(self.block_size.saturating_sub(1));
         // This flag only elects the single execution caller and never publishes scheduler data.
+        vpoint!(ENTRY, "M_RunOnce");
+        #[cfg(grevm_verif)]
+        let elected = !self.started.load(Ordering::Relaxed);
+        vemit!(ENTRY, "M_RunOnce", "won" => elected);
         self.started.compare_exchange(false, true, Ordering::Relaxed, Ordering::Relaxed).map_err(
             |_| GrevmError {
                 txid,
@@ -84,6 +88,14 @@ where
     ) -> Result<(), GrevmError<DB::Error>> {
         // `committed` is the authoritative committed boundary. Abort metadata selects whether the
         // remaining suffix is replayed or an unrecoverable error is returned.
+        vemit!(SCHED, "M_Post", "aborted" => self.abort.load(Ordering::Acquire),
+            "committed" => committed.index(),
+            "reason" => self.abort_reason.get().map(|reason| match reason {
+                AbortReason::FatalEvmError(_) => "fatal",
+                AbortReason::CommitError(_) => "commit",
+                AbortReason::ParallelError { .. } => "parallel",
+                AbortReason::FallbackSequential => "fallback",
+            }));
         if self.is_aborted() {
             match self.abort_reason.get() {
                 Some(AbortReason::FatalEvmError(txid)) => {
@@ -129,6 +141,24 @@ where
     pub(super) fn abort(&self, abort_reason: AbortReason<DB::Error>) {
         // Preserve the first abort cause. Publish it before the release-store so acquire readers
         // that observe `abort` can also observe the reason.
+        vpoint!(SCHED, "A_Abort");
+        vemit!(SCHED, "A_Abort", "first" => self.abort_reason.get().is_none(),
+            "reason" => match &abort_reason {
+                AbortReason::FatalEvmError(_) => "fatal",
+                AbortReason::CommitError(_) => "commit",
+                AbortReason::ParallelError { .. } => "parallel",
+                AbortReason::FallbackSequential => "fallback",
+            },
+            "txid" => match &abort_reason {
+                AbortReason::FatalEvmError(txid) => Some(*txid),
+                AbortReason::CommitError(error) => Some(error.txid),
+                AbortReason::ParallelError { txid, .. } => Some(*txid),
+                AbortReason::FallbackSequential => None,
+            },
+            "message" => match &abort_reason {
+                AbortReason::ParallelError { message, .. } => Some(*message),
+                _ => None,
+            });
         self.abort_reason.get_or_init(|| abort_reason);
         self.cancel();
     }
@@ -138,7 +168,9 @@ where
     /// This is used while unwinding a panic: peers must leave their wait loops, but the panic—not
     /// [`AbortReason`]—remains the authoritative failure signal.
     pub(super) fn cancel(&self) {
+        vpoint!(SCHED, "A_Cancel");
         self.abort.store(true, Ordering::Release);
+        vemit!(SCHED, "A_Cancel");
         self.finality_wait.notify();
         self.commit_wait.notify();
     }
